@@ -7,6 +7,30 @@
 //! The pieces are wired like servers/src/grin/server.rs does it: the chain's adapter is the REAL
 //! grin_servers ChainToPoolAndNetAdapter (with a Peers object that has no connections), the pool's view
 //! of the chain is the real PoolToChainAdapter; blocks are delivered with Options NONE / MINE / SYNC.
+#[macro_use]
+extern crate serde_derive;
+#[macro_use]
+extern crate log;
+
+// the aliases grin_servers' lib.rs provides for its modules: servers/src/mining/mine_block.rs is compiled from its
+// source text as a module of THIS crate (see build.rs) and resolves `crate::api`, `crate::chain`, `crate::core`,
+// `crate::keychain`, `crate::common::types::Error` and `crate::ServerTxPool` here
+use grin_api as api;
+use grin_chain as chain;
+use grin_core as core;
+use grin_keychain as keychain;
+mod common {
+	pub mod types {
+		pub use grin_servers::common::types::Error;
+	}
+}
+/// grin_servers::ServerTxPool with the recording network adapter in the place of PoolToNetAdapter
+pub type ServerTxPool = Arc<RwLock<RealPool>>;
+#[allow(dead_code, unused_imports)]
+mod mine_block {
+	include!(concat!(env!("OUT_DIR"), "/mine_block.rs"));
+}
+
 use chrono::Duration;
 use grin_chain::types::{BlockStatus, ChainAdapter as ChainEvents};
 use grin_chain::{Chain, Options};
@@ -471,7 +495,8 @@ struct Node {
 	_peers: Arc<grin_p2p::Peers>,
 	prec: Arc<PoolRec>,
 	accepted_cands: HashSet<Hash>,
-	last_mine_key: Option<(Hash, Vec<Vec<u64>>)>,
+	last_mine_key: Option<(Hash, Hash, Vec<Vec<u64>>)>,
+	nrd: bool,
 	blocks_made: u64,
 	pending: Option<(Vec<u64>, Block)>,
 	mine_weight: u64,
@@ -484,8 +509,59 @@ fn next_nonce() -> u64 {
 	N.fetch_add(1, std::sync::atomic::Ordering::SeqCst)
 }
 
+/// Timestamp of a block delivered to the node. Normally a minute after its parent (all far in the past); in a
+/// behaviour with `clock = head_ahead` the delivered blocks carry timestamps five minutes AHEAD of the local clock
+/// (the chain accepts up to twelve), so that mine_block's "not before the head" timestamp rule decides.
+fn block_ts(prev: &BlockHeader, ahead: bool) -> chrono::DateTime<chrono::Utc> {
+	if ahead {
+		let t = chrono::Utc::now() + Duration::seconds(300);
+		let t = chrono::DateTime::<chrono::Utc>::from_timestamp(t.timestamp(), 0).unwrap();
+		std::cmp::max(prev.timestamp + Duration::seconds(1), t)
+	} else {
+		prev.timestamp + Duration::seconds(60)
+	}
+}
+
 fn body_weight(b: &Block) -> u64 {
 	b.inputs().len() as u64 + 21 * b.outputs().len() as u64 + 3 * b.kernels().len() as u64
+}
+
+enum Tmpl {
+	Ok(Block, mine_block::BlockFees),
+	/// get_block did not come back and one direct attempt of build_block fails: the retry loop never ends
+	NoReturn(String),
+	Panic,
+	/// build_block works but get_block did not come back in time (machine too busy): not a verdict
+	Slow,
+}
+
+/// mine_block::get_block on a watchdog thread (it does not return until a block could be built).
+fn get_template(n: &Node) -> Tmpl {
+	let (tx, rx) = std::sync::mpsc::channel();
+	let c = n.chain.clone();
+	let p = n.pool.clone();
+	let fee_base = n.fee_base;
+	let nrd = n.nrd;
+	std::thread::spawn(move || {
+		global::set_local_chain_type(ChainTypes::AutomatedTesting);
+		global::set_local_accept_fee_base(fee_base);
+		global::set_local_nrd_enabled(nrd);
+		let r = catch_unwind(AssertUnwindSafe(|| mine_block::get_block(&c, &p, None, None)));
+		let _ = tx.send(r.ok());
+	});
+	match rx.recv_timeout(std::time::Duration::from_secs(6)) {
+		Ok(Some((b, f))) => Tmpl::Ok(b, f),
+		Ok(None) => Tmpl::Panic,
+		Err(_) => match catch_unwind(AssertUnwindSafe(|| mine_block::verif_build_block(&n.chain, &n.pool))) {
+			Err(_) => Tmpl::Panic,
+			Ok(Err(e)) => Tmpl::NoReturn(format!("{:?}", e)),
+			Ok(Ok(_)) => match rx.recv_timeout(std::time::Duration::from_secs(120)) {
+				Ok(Some((b, f))) => Tmpl::Ok(b, f),
+				Ok(None) => Tmpl::Panic,
+				Err(_) => Tmpl::Slow,
+			},
+		},
+	}
 }
 
 /// Everything that is checked on the real side independently of the model, after every action.
@@ -561,65 +637,78 @@ fn real_checks(w: &World, n: &mut Node, step: usize, after: &str, mism: &mut Vec
 			mism.push(json!({"step": step, "what": "overweight_resident", "after": after, "tx": w.ids_of(t), "weight": wt}));
 		}
 	}
-	// (4) the set offered for mining assembles into a block the chain accepts (twin chain)
+	// (4) the set offered for mining assembles into a block the chain accepts (twin chain). The block is the template
+	// the REAL miner entry point builds: mine_block::get_block (retry loop around build_block: head, difficulty,
+	// prepare_mineable_transactions, fee sum, get_coinbase / burn_reward, Block::from_reward, validate, timestamp rule,
+	// set_txhashset_roots), compiled from the source text of the tree under test.
 	let head = n.chain.head_header().unwrap();
-	let key = (head.hash(), ids_json(w, &txs));
+	let hdr_head = n.chain.header_head().unwrap().last_block_h;
+	let key = (head.hash(), hdr_head, ids_json(w, &txs));
 	if n.last_mine_key.as_ref() != Some(&key) {
 		n.last_mine_key = Some(key);
 		let r = catch_unwind(AssertUnwindSafe(|| n.pool.read().prepare_mineable_transactions()));
 		let mut m = json!({});
 		let mut bad: Option<String> = None;
+		let mut want: Option<Vec<Vec<u64>>> = None;
 		match r {
 			Err(_) => bad = Some("panic".into()),
 			Ok(Err(e)) => bad = Some(format!("prepare_error:{:?}", e)),
 			Ok(Ok(mtxs)) => {
 				m["ids"] = json!(ids_json(w, &mtxs));
-				let fees: u64 = mtxs.iter().map(|t| t.fee()).sum();
-				let (o, k) = reward_for(2, head.height + 1, fees);
-				match Block::from_reward(&head, &mtxs, o, k, Difficulty::from_num(1)) {
-					Err(e) => bad = Some(format!("from_reward:{:?}", e)),
-					Ok(mut b) => {
-						let wt = body_weight(&b);
-						m["weight"] = json!(wt);
-						if let Err(e) = b.validate(&head.total_kernel_offset) {
-							bad = Some(format!("block_validate:{:?}", e));
-						} else if wt > n.mine_weight {
-							bad = Some(format!("over_mineable_max_weight:{}>{}", wt, n.mine_weight));
-						} else if wt > global::max_block_weight() {
-							bad = Some(format!("over_block_weight:{}", wt));
-						} else {
-							b.header.timestamp = head.timestamp + Duration::seconds(30);
-							b.header.pow.nonce = next_nonce();
-							// Block::from_reward leaves the all-zero proof and the header hash covers the proof only:
-							// without this every candidate would have the same hash (Block::new does the same)
-							b.header.pow.proof = pow::Proof::random(global::proofsize());
-							match n.chain.set_txhashset_roots(&mut b) {
-								Err(e) => {
+				want = Some(ids_json(w, &mtxs));
+			}
+		}
+		if let Some(want) = want {
+			match get_template(n) {
+				Tmpl::Panic => bad = Some("panic:get_block".into()),
+				Tmpl::Slow => bad = Some("harness_get_block_slow".into()),
+				Tmpl::NoReturn(e) => bad = Some(format!("get_block_no_return:{}", e)),
+				Tmpl::Ok(mut b, bf) => {
+					let wt = body_weight(&b);
+					m["weight"] = json!(wt);
+					m["fees"] = json!(bf.fees);
+					m["prev_height"] = json!(b.header.height.saturating_sub(1));
+					// what Pool.tla's TemplateFor / TemplateOK say about the template, evaluated with the model's universe:
+					// built on the BODY head; carries exactly the mineable set; the coinbase claims the PLAIN fee fields
+					let mut got: Vec<u64> = w.ids_of_commits(
+						&b.kernels().iter().filter(|k| !k.is_coinbase()).map(|k| k.excess()).collect::<Vec<_>>(),
+					);
+					got.sort();
+					let mut flat: Vec<u64> = want.iter().flatten().cloned().collect();
+					flat.sort();
+					let model_fees: u64 = flat.iter().filter_map(|a| w.atoms.get(a)).map(|a| a.fee).sum();
+					let n_cb_out = b.outputs().iter().filter(|o| o.is_coinbase()).count();
+					let n_cb_ker = b.kernels().iter().filter(|k| k.is_coinbase()).count();
+					if b.header.prev_hash != head.hash() || b.header.height != head.height + 1 {
+						bad = Some(format!("template_not_on_body_head:height={}:head={}", b.header.height, head.height));
+					} else if got != flat {
+						bad = Some(format!("template_txs_differ_from_mineable:{:?}", got));
+					} else if bf.fees != model_fees || bf.height != head.height + 1 {
+						bad = Some(format!("template_fees:{}!={}", bf.fees, model_fees));
+					} else if n_cb_out != 1 || n_cb_ker != 1 {
+						bad = Some(format!("template_coinbase_count:{}:{}", n_cb_out, n_cb_ker));
+					} else if let Err(e) = b.validate(&head.total_kernel_offset) {
+						bad = Some(format!("block_validate:{:?}", e));
+					} else if wt > n.mine_weight {
+						bad = Some(format!("over_mineable_max_weight:{}>{}", wt, n.mine_weight));
+					} else if wt > global::max_block_weight() {
+						bad = Some(format!("over_block_weight:{}", wt));
+					} else if b.header.timestamp <= head.timestamp {
+						bad = Some("template_timestamp_not_after_head".into());
+					} else {
+						// the miner's part: a proof (BlockHeader::hash() covers the proof only; SKIP_POW on the twin)
+						b.header.pow.proof = pow::Proof::random(global::proofsize());
+						let h = b.hash();
+						if !n.accepted_cands.contains(&h) {
+							let dbg_h = b.header.height;
+							match n.twin.process_block(b, Options::SKIP_POW) {
+								Ok(t) => {
 									if std::env::var("VERIF_DEBUG").is_ok() {
-										let th = n.twin.head().unwrap();
-										let thh = n.twin.header_head().unwrap();
-										eprintln!("set_roots failed: {:?}; twin head h={} {} hdr head h={} {}; main head h={} {}; cand prev {}",
-											e, th.height, th.last_block_h, thh.height, thh.last_block_h, head.height, head.hash(), b.header.prev_hash);
-										let mut b2 = b.clone();
-										eprintln!("same block on main chain: {:?}", n.chain.set_txhashset_roots(&mut b2));
+										eprintln!("twin accepted cand at height {} -> {:?}; twin head {:?}; main head {:?}", dbg_h, t.map(|x| x.height), n.twin.head().map(|x| (x.height, x.total_difficulty.to_num())), n.chain.head().map(|x| (x.height, x.total_difficulty.to_num())));
 									}
-									bad = Some(format!("set_roots:{:?}", e))
+									n.accepted_cands.insert(h);
 								}
-								Ok(()) => {
-									let h = b.hash();
-									if !n.accepted_cands.contains(&h) {
-										let dbg_h = b.header.height;
-										match n.twin.process_block(b, Options::SKIP_POW) {
-											Ok(t) => {
-												if std::env::var("VERIF_DEBUG").is_ok() {
-													eprintln!("twin accepted cand at height {} -> {:?}; twin head {:?}; main head {:?}", dbg_h, t.map(|x| x.height), n.twin.head().map(|x| (x.height, x.total_difficulty.to_num())), n.chain.head().map(|x| (x.height, x.total_difficulty.to_num())));
-												}
-												n.accepted_cands.insert(h);
-											}
-											Err(e) => bad = Some(format!("process_block:{:?}", e)),
-										}
-									}
-								}
+								Err(e) => bad = Some(format!("process_block:{:?}", e)),
 							}
 						}
 					}
@@ -630,7 +719,7 @@ fn real_checks(w: &World, n: &mut Node, step: usize, after: &str, mism: &mut Vec
 		if let Some(b) = bad {
 			m["err"] = json!(b);
 			mism.push(json!({"step": step, "what": "mineable_not_accepted", "after": after, "observed": b,
-				"mineable": m["ids"], "txpool": ids_json(w, &txs)}));
+				"mineable": m["ids"], "txpool": ids_json(w, &txs), "header_ahead": hdr_head != head.hash()}));
 		}
 		obs["mineable"] = m;
 	}
@@ -663,6 +752,9 @@ fn replay_one(beh: &Value, work: &str, idx: usize) -> Value {
 	let fee_base = cfg["feebase"].as_u64().unwrap();
 	let mine_weight = cfg["mineweight"].as_u64().unwrap();
 	global::set_local_accept_fee_base(fee_base);
+	let nrd = cfg["nrd"].as_bool().unwrap_or(false);
+	let ahead = beh["clock"].as_str() == Some("head_ahead");
+	global::set_local_nrd_enabled(nrd);
 	let w = build_world(beh);
 	let tdir = template(work, trunk);
 	let dir = format!("{}/b{}", work, idx);
@@ -714,6 +806,7 @@ fn replay_one(beh: &Value, work: &str, idx: usize) -> Value {
 		pending: None,
 		mine_weight,
 		fee_base,
+		nrd,
 	};
 	let mut mism: Vec<Value> = vec![];
 	let mut obs_steps: Vec<Value> = vec![];
@@ -823,11 +916,17 @@ fn replay_one(beh: &Value, work: &str, idx: usize) -> Value {
 						let gone: Vec<Vec<u64>> = pre.iter().filter(|e| !tp.contains(e)).cloned().collect();
 						let kept_order: Vec<Vec<u64>> = pre.iter().filter(|e| tp.contains(e)).cloned().collect();
 						o["evicted"] = json!(gone);
+						// is the victim the one Pool.tla's CodeVictim (bucket_transactions as implemented) predicts?
+						if let Some(cv) = s.get("codevictim").filter(|v| v.is_array()) {
+							let mut cv = arr_u64(cv);
+							cv.sort();
+							o["victim_is_bucket_rule"] = json!(gone.len() == 1 && gone[0] == cv);
+						}
 						if gone.len() != 1 || kept_order != tp {
 							mism.push(json!({"step": i, "what": "evict_shape", "pre": pre, "observed": tp}));
 						} else if !allowed.contains(&gone[0]) {
 							mism.push(json!({"step": i, "what": "evict_victim_has_dependants", "victim": gone[0],
-								"pre": pre, "allowed": s["allowed"], "observed": tp}));
+								"pre": pre, "allowed": s["allowed"], "observed": tp, "code_victim": s["codevictim"]}));
 						} else if tp != sets_of(&s["proj"]["txpool"]) {
 							diverged = Some(i);
 						} else if sp != sets_of(&s["proj"]["stempool"]) {
@@ -847,7 +946,7 @@ fn replay_one(beh: &Value, work: &str, idx: usize) -> Value {
 				n.blocks_made += 1;
 				let rw = reward_for(1, 1000 * (idx as u64 % 50) + n.blocks_made, fees);
 				let mut b = Block::new(&prev, &txs, Difficulty::from_num(100), rw).expect("header block");
-				b.header.timestamp = prev.timestamp + Duration::seconds(60);
+				b.header.timestamp = block_ts(&prev, ahead);
 				b.header.pow.nonce = next_nonce();
 				if let Err(e) = n.chain.set_txhashset_roots(&mut b) {
 					mism.push(json!({"step": i, "what": "model_block_invalid_on_chain", "observed": format!("{:?}", e), "block": atoms}));
@@ -923,7 +1022,7 @@ fn replay_one(beh: &Value, work: &str, idx: usize) -> Value {
 								break;
 							}
 						};
-						b.header.timestamp = prev.timestamp + Duration::seconds(60);
+						b.header.timestamp = block_ts(&prev, ahead);
 						b.header.pow.nonce = next_nonce();
 						if let Err(e) = n.chain.set_txhashset_roots(&mut b) {
 							mism.push(json!({"step": i, "what": "model_block_invalid_on_chain", "observed": format!("{:?}", e), "block": atoms}));
@@ -977,6 +1076,15 @@ fn replay_one(beh: &Value, work: &str, idx: usize) -> Value {
 			x => panic!("unknown step {}", x),
 		}
 		let rc = real_checks(&w, &mut n, i, k, &mut mism);
+		// the template is built on what Pool.tla's TemplateFor says: the body head of the MODEL's chain
+		if diverged.is_none() && mism.is_empty() {
+			if let (Some(ph), Some(exp)) = (rc["mineable"]["prev_height"].as_u64(), s["proj"]["tmpl"]["prev"].as_u64()) {
+				if ph != exp {
+					mism.push(json!({"step": i, "what": "mineable_not_accepted", "after": k,
+						"observed": format!("template_not_on_body_head:model:{}!={}", ph, exp), "header_ahead": s["proj"]["tmpl"]["pending"]}));
+				}
+			}
+		}
 		o["real"] = rc;
 		o["txpool"] = json!(ids_json(&w, &n.pool.read().txpool.all_transactions()));
 		o["stempool"] = json!(ids_json(&w, &n.pool.read().stempool.all_transactions()));
@@ -1032,6 +1140,15 @@ fn main() {
 	let args = Args::parse(&a);
 	let rc = match args.pos.get(0).map(|s| s.as_str()) {
 		Some("replay") => replay(&args),
+		Some("commits") => {
+			// development aid: the commitments of the trunk coinbases (their byte order is the order of a tx's inputs)
+			let kc = keychain();
+			for h in 0..8u64 {
+				let c = kc.commit(REWARD, &kid_coinbase(h), SwitchCommitmentType::Regular).unwrap();
+				println!("{} {}", h, grin_util::ToHex::to_hex(&c));
+			}
+			0
+		}
 		_ => {
 			eprintln!("pool replay --cases F --out F --work DIR");
 			2
